@@ -2,10 +2,10 @@
     Model: Num/Vectorize.v ([run_vectorized] with its two loops and the in-place meta update,
     [unpack_meta], [prepare_seed] on top of the C15 model of [get_sub_seed], [str.format] on the token
     language [Lit | Pos | Key]).  This file only states the property theorems; proofs are in
-    Proofs/C18_Vectorize.v.  All statements are for every arity, batch length, constants mask,
+    Proofs/C18_Vectorize.v and Proofs/C18_Parse.v (the separator-aware parser of the command's standard output).  All statements are for every arity, batch length, constants mask,
     keyword set and template. *)
 From Coq Require Import List ZArith NArith Arith Bool String.
-From Elfi Require Import Num.Seed Num.Vectorize Proofs.C15_Seed Proofs.C18_Vectorize.
+From Elfi Require Import Num.Seed Num.Vectorize Proofs.C15_Seed Proofs.C18_Vectorize Proofs.C18_Parse.
 Import ListNotations.
 
 (** The two loops of [run_vectorized] (scan for constants / batch size, then per-row calls with the
@@ -237,6 +237,115 @@ Theorem C18_model_row_ok :
     row_ok t args (unpack_meta kw meta) rs (sub_index (unpack_meta kw meta)) (OCmd cmd seed None) = true.
 Proof. exact emodel_row_ok. Qed.
 Print Assumptions C18_model_row_ok.
+
+(** ---- "parses its standard output into an array of the requested type" (stdout handler; proofs in Proofs/C18_Parse.v) ----
+
+    [parse_stdout k sep out] = split [out] on the separator ([fields sep out], no element type involved), then convert every
+    field to the element type [k].  Round trip for a separator with a non-white core (",", ";", "::", ", ", " ; ", "|", ...): the
+    fields of "f1 SEP f2 ... SEP fn" followed by white space (the newline) are f1 .. fn whenever no field contains white space
+    or a character of the separator; any number of fields, any separator length. *)
+Theorem C18_fields_roundtrip :
+  forall sep fs f tail,
+    trim (chars sep) <> [] -> no_ws (trim (chars sep)) -> all_ws tail ->
+    Forall (fun g => no_ws g /\ clean (trim (chars sep)) g) (fs ++ [f]) ->
+    fields sep (str (join (trim (chars sep)) (fs ++ [f]) ++ tail)) = fs ++ [f].
+Proof. exact fields_roundtrip. Qed.
+Print Assumptions C18_fields_roundtrip.
+
+(** the same for white-space separators (" ", tab, several blanks): any non-empty run of white space between the fields *)
+Theorem C18_ws_fields_roundtrip :
+  forall sep j tail fs,
+    trim (chars sep) = [] -> all_ws j -> j <> [] -> all_ws tail -> fs <> [] ->
+    Forall (fun g => g <> [] /\ no_ws g) fs ->
+    fields sep (str (join j fs ++ tail)) = fs.
+Proof. exact ws_fields_roundtrip. Qed.
+Print Assumptions C18_ws_fields_roundtrip.
+
+(** The requested type never changes the split: a successful parse is the type-independent field list, converted field by
+    field; so the number of entries is the number of fields for every type ... *)
+Theorem C18_parse_is_split_then_convert :
+  forall k sep out vs,
+    parse_stdout k sep out = Some vs -> fields sep out <> [] /\ Forall2 (fun f v => conv k f = Some v) (fields sep out) vs.
+Proof. exact parse_is_split_then_convert. Qed.
+Print Assumptions C18_parse_is_split_then_convert.
+
+Theorem C18_parse_length :
+  forall k sep out vs, parse_stdout k sep out = Some vs -> List.length vs = List.length (fields sep out).
+Proof. exact parse_length. Qed.
+Print Assumptions C18_parse_length.
+
+(** ... and an output that parses with an integer type parses to the same values with a float type (only the element type
+    differs); unsigned to signed likewise. *)
+Theorem C18_parse_int_as_float :
+  forall sep out vs, parse_stdout KInt sep out = Some vs -> parse_stdout KFloat sep out = Some vs.
+Proof. exact parse_int_as_float. Qed.
+Print Assumptions C18_parse_int_as_float.
+
+Theorem C18_parse_uint_as_int :
+  forall sep out vs, parse_stdout KUInt sep out = Some vs -> parse_stdout KInt sep out = Some vs.
+Proof. exact parse_uint_as_int. Qed.
+Print Assumptions C18_parse_uint_as_int.
+
+(** Round trip on values: integers rendered as [str.format] substitutes them ([render_Z]), joined by a separator whose core has
+    no white space and no character of a number, plus the newline, parse back to exactly these integers under the integer and
+    the float types - for every separator of that kind and every number of values. *)
+Theorem C18_parse_roundtrip_Z :
+  forall sep zs z,
+    trim (chars sep) <> [] -> no_ws (trim (chars sep)) -> (forall a, In a (trim (chars sep)) -> ~ In a numeric_chars) ->
+    forall k, k = KInt \/ k = KFloat ->
+    parse_stdout k sep (str (join (trim (chars sep)) (map (fun x => chars (render_Z x)) (zs ++ [z])) ++ chars NL))
+    = Some (map (fun x => (x, 1%positive)) (zs ++ [z])).
+Proof. exact parse_roundtrip_Z. Qed.
+Print Assumptions C18_parse_roundtrip_Z.
+
+(** The decidable clause used by the correspondence on every returned row ([parse_agree], inside [ok]) is sound: the row has the
+    requested dtype (float64 by default) and its entries are the parse of THAT row's standard output with the separator given
+    to [external_operation]; a ValueError of the run is justified by a row whose output does not parse.  The model's own row
+    satisfies the clause for all separators, requests and outputs. *)
+Theorem C18_parse_rows_ok_sound :
+  forall sep req os,
+    parse_rows_ok sep req os = true ->
+    (forall o p dt vals, In o os -> pout_of o = Some p -> p_res p = Some (dt, vals) ->
+       dt = result_dtype req /\
+       exists vs, parse_stdout (kind_of req) sep (p_stdout p) = Some vs /\ Forall2 same_number vs vals)
+    /\ ((exists o p, In o os /\ pout_of o = Some p /\ p_res p = None) ->
+        exists o p, In o os /\ pout_of o = Some p /\ parse_stdout (kind_of req) sep (p_stdout p) = None).
+Proof. exact parse_rows_ok_sound. Qed.
+Print Assumptions C18_parse_rows_ok_sound.
+
+Theorem C18_parse_model_ok :
+  forall sep req out,
+    parse_agree sep req out (option_map (fun vs => (result_dtype req, vs)) (parse_stdout (kind_of req) sep out)) = true.
+Proof. exact parse_agree_model. Qed.
+Print Assumptions C18_parse_model_ok.
+
+(** the same output split by different separators, with and without a requested type: the type changes the element type only;
+    a separator that does not occur leaves one field that is not a number *)
+Example C18_example_parse :
+  (parse_stdout KFloat ";"%string (String.append "1; 20 ;-3"%string NL),
+   parse_stdout KInt ";"%string (String.append "1; 20 ;-3"%string NL),
+   parse_stdout KUInt ";"%string (String.append "1; 20 ;-3"%string NL),
+   parse_stdout KInt " "%string (String.append "1; 20 ;-3"%string NL),
+   parse_stdout KFloat "::"%string (String.append "1.5::-0.25"%string NL),
+   parse_stdout KInt "::"%string (String.append "1.5::-0.25"%string NL),
+   parse_stdout KInt TAB (cat ["7"%string; TAB; "8  9"%string; NL]))
+  = (Some [(1, 1%positive); (20, 1%positive); (-3, 1%positive)], Some [(1, 1%positive); (20, 1%positive); (-3, 1%positive)], None, None,
+     Some [(15, 10%positive); (-25, 100%positive)], None, Some [(7, 1%positive); (8, 1%positive); (9, 1%positive)])%Z.
+Proof. vm_compute. reflexivity. Qed.
+
+(** an [ecase] as the harness emits it: a typed request with a "," separator over two rows; [ok] holds for the right rows and
+    fails when a row holds only the first field (what splitting on white space would give) *)
+Definition ex_parse_case (row2 : list num) : ecase :=
+  {| e_toks := [Lit "echo "%string; Pos 0; Lit ",4"%string]; e_inputs := [VArr [vint 5; vint 6]]; e_constants := None;
+     e_batch_size := None; e_vectorized := true; e_kw := []; e_meta := None; e_rs := None; e_sep := ","%string;
+     e_req := Some "int32"%string; e_first_only := false;
+     e_impl := Some [OCmd "echo 5,4"%string None (Some (mkpout (String.append "5,4"%string NL) (Some ("int32"%string, [(5, 1%positive); (4, 1%positive)]%Z))));
+                     OCmd "echo 6,4"%string None (Some (mkpout (String.append "6,4"%string NL) (Some ("int32"%string, row2))))] |}.
+
+Example C18_example_parse_case :
+  (ok (CExt (ex_parse_case [(6, 1%positive); (4, 1%positive)]%Z)), agree (CExt (ex_parse_case [(6, 1%positive); (4, 1%positive)]%Z)),
+   ok (CExt (ex_parse_case [(6, 1%positive)]%Z))) = (true, true, false).
+Proof. vm_compute. reflexivity. Qed.
 
 (** ---- non-vacuity ---- *)
 
